@@ -422,3 +422,203 @@ def cqm_op_text(op):
         else:
             out.append(fnum(Fraction(t)))
     return " ".join(out)
+
+
+# ----------------------------------------------------------------------------
+# Coq side (Model/ChkC20Cqm.v): cq.* ops as ExprOps.mop lists, dumps as qobs
+# ----------------------------------------------------------------------------
+from wlib import cq as _cq, clist as _clist, cnat as _cnat   # noqa: E402
+from c20_cpp import VT as _VT, DEFAULT_BOUNDS as _DB          # noqa: E402
+
+
+def _q(x):
+    return _cq(Fraction(x))
+
+
+def _info(vt, lb, ub):
+    return f"(mkI {_VT[vt]} {_q(lb)} {_q(ub)})"
+
+
+def _dinfo(vt):
+    return _info(vt, *_DB[vt])
+
+
+def _lq(terms):
+    return _clist([f"({_cnat(u)}, {_cnat(v)}, {_q(b)})" for u, v, b in terms])
+
+
+def _target(ke):
+    return "EObj" if ke < 0 else f"(ECon {_cnat(ke)})"
+
+
+def local_qm(vts, lin_terms, quad_terms, off):
+    """what the driver's local QuadraticModel holds: linear per local variable, lower-triangle
+    interactions in cbegin_quadratic order (u ascending, v <= u ascending), offset"""
+    n = len(vts)
+    lin = [Fraction(0)] * n
+    off = Fraction(off)
+    quad = {}
+    for v, b in lin_terms:
+        lin[v] += Fraction(b)
+    for u, v, b in quad_terms:
+        b = Fraction(b)
+        if u == v and vts[u] == 0:
+            lin[u] += b
+        elif u == v and vts[u] == 1:
+            off += b
+        else:
+            k = (max(u, v), min(u, v))
+            quad[k] = quad.get(k, Fraction(0)) + b
+    return lin, [(u, v, quad[(u, v)]) for (u, v) in sorted(quad)], off
+
+
+def parse_poly(a, i):
+    nl = a[i]
+    i += 1
+    lin = []
+    for _ in range(nl):
+        lin.append((a[i], a[i + 1]))
+        i += 2
+    nq = a[i]
+    i += 1
+    quad = []
+    for _ in range(nq):
+        quad.append((a[i], a[i + 1], a[i + 2]))
+        i += 3
+    return lin, quad, a[i], i + 1
+
+
+def coq_qop(op, prev):
+    """Coq `qop` term for a driver op given the observed state BEFORE it; None = no model counterpart
+    (the check reloads the model from the dump after the op)"""
+    k, a = op[0], op[1:]
+    if k in ("cq.weakchk", "cq.weak"):
+        return "QNop"
+    s = a[0]
+    c = prev[s]
+    S = _cnat(s)
+
+    def M(ops):
+        return f"(QM {S} {_clist(ops)})"
+    empty_con = lambda sense, rhs: f"(MAddConstraintMove [] [] 0 [] {_cnat(sense)} {_q(rhs)})"   # noqa: E731
+    if k == "cq.addvar":
+        return M([f"(MAddVariable {_dinfo(a[1])})"])
+    if k == "cq.addvarb":
+        return M([f"(MAddVariable {_info(a[1], a[2], a[3])})"])
+    if k == "cq.addvars":
+        return M([f"(MAddVariable {_dinfo(a[1])})"] * a[2])
+    if k == "cq.addvarsb":
+        return M([f"(MAddVariable {_info(a[1], a[3], a[4])})"] * a[2])
+    if k == "cq.addcon":
+        return M([empty_con(2, 0)])
+    if k == "cq.addcons":
+        return M([empty_con(2, 0)] * a[1])
+    if k == "cq.newcon":
+        lin, quad, off, _ = parse_poly(a, 4)
+        t = _target(len(c["cons"]))
+        return M([empty_con(a[2], a[3])] + [f"(MEdit {t} (EAddLinear {_cnat(v)} {_q(b)}))" for v, b in lin]
+                 + [f"(MEdit {t} (EAddQuadratic {_cnat(u)} {_cnat(v)} {_q(b)}))" for u, v, b in quad]
+                 + [f"(MEdit {t} (EAddOffset {_q(off)}))"])
+    if k in ("cq.addcon_qm", "cq.setobj_map"):
+        m = a[4]
+        mp = a[5:5 + m]
+        lin, quad, off, _ = parse_poly(a, 5 + m)
+        L, Qd, O = local_qm([c["vt"][v] for v in mp], lin, quad, off)
+        if k == "cq.setobj_map":
+            return M(["(MEdit EObj EClear)"] + [f"(MEdit EObj (EAddLinear {_cnat(mp[i])} {_q(L[i])}))" for i in range(m)]
+                     + [f"(MEdit EObj (EAddQuadratic {_cnat(mp[u])} {_cnat(mp[v])} {_q(b)}))" for u, v, b in Qd]
+                     + [f"(MEdit EObj (EAddOffset {_q(O)}))"])
+        if len(set(mp)) != len(mp):
+            return None          # ExprOps.mapping_ok wants distinct labels; the copying overload also takes repeated ones
+        ctor = "MAddConstraintCopy" if a[1] == 0 else "MAddConstraintMove"
+        return M([f"({ctor} {_clist([_q(x) for x in L])} {_lq(Qd)} {_q(O)} {_clist([_cnat(v) for v in mp])} {_cnat(a[2])} {_q(a[3])})"])
+    if k == "cq.setobj":
+        m = a[1]
+        vts = a[2:2 + m]
+        lin, quad, off, _ = parse_poly(a, 2 + m)
+        nv = c["nv"]
+        eff = [c["vt"][i] if i < nv else vts[i] for i in range(m)]
+        L, Qd, O = local_qm(eff, lin, quad, off)
+        return M([f"(MAddVariable {_dinfo(vts[i])})" for i in range(nv, m)] + ["(MEdit EObj EClear)"]
+                 + [f"(MEdit EObj (EAddLinear {_cnat(i)} {_q(L[i])}))" for i in range(m)]
+                 + [f"(MEdit EObj (EAddQuadratic {_cnat(u)} {_cnat(v)} {_q(b)}))" for u, v, b in Qd]
+                 + [f"(MEdit EObj (EAddOffset {_q(O)}))"])
+    if k == "cq.addlincon":
+        m = a[1]
+        vs, bs = a[2:2 + m], a[2 + m:2 + 2 * m]
+        t = _target(len(c["cons"]))
+        return M([empty_con(a[2 + 2 * m], a[3 + 2 * m])] + [f"(MEdit {t} (EAddLinear {_cnat(v)} {_q(b)}))" for v, b in zip(vs, bs)])
+    if k == "cq.remcon":
+        return M([f"(MRemoveConstraint {_cnat(a[1])})"])
+    if k == "cq.remvar":
+        return M([f"(MRemoveVariable {_cnat(a[1])})"])
+    if k == "cq.fix":
+        return M([f"(MFixVariable {_cnat(a[1])} {_q(a[2])})"])
+    if k == "cq.subst":
+        return M([f"(MSubstitute {_cnat(a[1])} {_q(a[2])} {_q(a[3])})"])
+    if k == "cq.chvt":
+        t, v = a[1], a[2]
+        src = c["vt"][v]
+        V = _cnat(v)
+        if src == t:
+            return "QNop"
+        if (src, t) == (1, 0):
+            return M([f"(MSubstitute {V} {_q(2)} {_q(-1)})", f"(MSetInfo {V} {_info(0, 0, 1)})"])
+        if (src, t) == (0, 1):
+            return M([f"(MSubstitute {V} {_q(Fraction(1, 2))} {_q(Fraction(1, 2))})", f"(MSetInfo {V} {_info(1, -1, 1)})"])
+        if (src, t) == (1, 2):
+            return M([f"(MSubstitute {V} {_q(2)} {_q(-1)})", f"(MSetInfo {V} {_info(2, 0, 1)})"])
+        if (src, t) == (0, 2):
+            return M([f"(MSetInfo {V} {_info(2, fhex(c['lb'][v]), fhex(c['ub'][v]))})"])
+        return "QNop"            # std::logic_error, nothing changes
+    if k in ("cq.setlb", "cq.setub"):
+        v = a[1]
+        lb = Fraction(a[2]) if k == "cq.setlb" else fhex(c["lb"][v])
+        ub = Fraction(a[2]) if k == "cq.setub" else fhex(c["ub"][v])
+        return M([f"(MSetInfo {_cnat(v)} {_info(c['vt'][v], lb, ub)})"])
+    if k == "cq.clear":
+        return f"(QClear {S})"
+    if k in ("cq.copyctor", "cq.copyassign"):
+        return f"(QCopy {_cnat(a[0])} {_cnat(a[1])})"
+    if k in ("cq.movector", "cq.moveassign"):
+        return f"(QMoveClear {_cnat(a[0])} {_cnat(a[1])})"
+    if k == "cq.swap":
+        return f"(QSwap {_cnat(a[0])} {_cnat(a[1])})"
+    if k.startswith("cq.e."):
+        sub, ke, b = k[5:], a[1], a[2:]
+        t = _target(ke)
+        if sub == "addlin":
+            return M([f"(MEdit {t} (EAddLinear {_cnat(b[0])} {_q(b[1])}))"])
+        if sub == "setlin":
+            return M([f"(MEdit {t} (ESetLinear {_cnat(b[0])} {_q(b[1])}))"])
+        if sub == "addq":
+            return M([f"(MEdit {t} (EAddQuadratic {_cnat(b[0])} {_cnat(b[1])} {_q(b[2])}))"])
+        if sub == "addoff":
+            return M([f"(MEdit {t} (EAddOffset {_q(b[0])}))"])
+        if sub == "setoff":
+            return M([f"(MEdit {t} (ESetOffset {_q(b[0])}))"])
+        if sub == "remint":
+            return M([f"(MEdit {t} (ERemoveInteraction {_cnat(b[0])} {_cnat(b[1])}))"])
+        if sub == "remvar":
+            return M([f"(MEdit {t} (ERemoveVariable {_cnat(b[0])}))"])
+        if sub == "remvars":
+            return f"(QRemVars {S} {t} {_clist([_cnat(v) for v in b[1:]])})"
+        if sub == "subst":
+            return f"(QSubstE {S} {t} {_cnat(b[0])} {_q(b[1])} {_q(b[2])})"
+        if sub == "clear":
+            return M([f"(MEdit {t} EClear)"])
+        if sub in ("sense", "rhs", "weight", "disc", "energy", "disjoint"):
+            return "QNop"       # attributes / reads: not part of the compared state
+        return None             # setq, fix, scale: no counterpart in ExprOps
+    return None                 # cq.fixvars, cq.remcons_if
+
+
+def coq_eobs(e):
+    lin = _clist([_q(fhex(x)) for x in e["lin"]])
+    quad = _lq([(i, j, fhex(b)) for i, nb in enumerate(e["adj"]) for j, b in nb if j <= i])
+    return f"(mkEO {_clist([_cnat(v) for v in e['vars']])} {lin} {quad} {_q(fhex(e['off']))})"
+
+
+def coq_qobs(c):
+    info = _clist([_info(t, fhex(l), fhex(u)) for t, l, u in zip(c["vt"], c["lb"], c["ub"])])
+    return f"(mkQO {info} {coq_eobs(c['obj'])} {_clist([coq_eobs(e) for e in c['cons']])})"
